@@ -160,6 +160,9 @@ class Ctx:
                     good.append(m)
                 else:
                     self.broken.append(f"module {m} does not build")
+                    failing = lean.failing_theorems(m, outm)
+                    if failing:
+                        self.broken.append(f"in {m}: the proofs of {', '.join(failing)} no longer check (the other theorems of the module cannot be re-audited until it builds)")
                     self.extra.setdefault("build_output_tail", "")
                     self.extra["build_output_tail"] += f"\n--- {m} ---\n" + "\n".join(l for l in outm.splitlines() if "error" in l or "decide" in l)[-1500:]
         names = {}
